@@ -104,11 +104,12 @@ IDX = (10, 11)
 class Slice:
     """A bounded instance: usable initial nodes (terminal / literal / zero names), operations,
     node bound, rank bound, index names; simulate = number of random behaviours per TLC worker
-    (else the slice is explored exhaustively)."""
+    (else the slice is explored exhaustively); group = tag of the TLC runs the slice belongs to; canon =
+    sums and products only with their operands in store order (the other order is the same object)."""
 
-    def __init__(self, name, use, ops, maxnodes, cm, idx=(10,), maxrank=1, simulate=None, group=""):
+    def __init__(self, name, use, ops, maxnodes, cm, idx=(10,), maxrank=1, simulate=None, group="", canon=False):
         self.name, self.use, self.ops, self.maxnodes, self.cm = name, list(use), sorted(ops), maxnodes, bool(cm)
-        self.idx, self.maxrank, self.simulate, self.group = list(idx), maxrank, simulate, group
+        self.idx, self.maxrank, self.simulate, self.group, self.canon = list(idx), maxrank, simulate, group, bool(canon)
         for n in self.use:
             if n not in TERMS and n not in LITS and n not in ZEROS:
                 raise MachineryError(f"slice {name}: unknown initial node {n}")
@@ -127,11 +128,11 @@ class Slice:
         self.formargs = [a for k in range(self.nargs) for a in sorted(per.get(k, [DEFAULT_ARG[k]]), key=lambda b: ARG_PART.get(b, -1))]
 
     def to_json(self):
-        return {"name": self.name, "use": self.use, "ops": self.ops, "maxnodes": self.maxnodes, "cm": self.cm, "idx": self.idx, "maxrank": self.maxrank, "simulate": self.simulate, "group": self.group}
+        return {"name": self.name, "use": self.use, "ops": self.ops, "maxnodes": self.maxnodes, "cm": self.cm, "idx": self.idx, "maxrank": self.maxrank, "simulate": self.simulate, "group": self.group, "canon": self.canon}
 
     @staticmethod
     def from_json(d):
-        return Slice(d["name"], d["use"], d["ops"], d["maxnodes"], d["cm"], d["idx"], d["maxrank"], d.get("simulate"), d.get("group", ""))
+        return Slice(d["name"], d["use"], d["ops"], d["maxnodes"], d["cm"], d["idx"], d["maxrank"], d.get("simulate"), d.get("group", ""), d.get("canon", False))
 
 
 ALG = {"add", "sub", "neg", "mul", "div", "pow", "abs", "sqrt", "sign"}
@@ -165,10 +166,10 @@ def slices(tier):
         S("deep-vec-c", ["vv", "uu", "c", "f", "two", "z", "zz"], {"inner", "dot", "outer", "conj", "mul", "index", "isum", "add", "sub", "list", "as_tensor", "div", "cond", "lt", "real"}, 5, True, idx=(10, 11), maxrank=2, simulate=25 if q else 250),
         # ---- group "x": own TLC runs (the experiment has three arguments where a slice needs them) ----
         # trilinear forms: in complex mode the third argument is "treated as a trial function"
-        S("rank3-c", ["v", "u", "w"] + ([] if q else ["f"]), {"mul", "conj"} | (set() if q else {"add"}), 3, True, group="x"),
+        S("rank3-c", ["v", "u", "w"] + ([] if q else ["f"]), {"mul", "conj"} | (set() if q else {"add"}), 3, True, group="x", canon=True),
         # block systems: the test / trial function split into parts (same number, different part)
-        S("parts-r", ["v0", "v1", "u0", "u1", "c"] + ([] if q else ["z"]), {"list", "dot", "mul", "add"}, 2, False, group="x"),
-        S("parts-c", ["v0", "v1", "u0", "u1", "c"], {"list", "inner", "dot", "conj", "mul"}, 2, True, group="x"),
+        S("parts-r", ["v0", "v1", "u0", "u1", "c"] + ([] if q else ["z"]), {"list", "dot", "mul", "add"}, 2, False, group="x", canon=True),
+        S("parts-c", ["v0", "v1", "u0", "u1", "c"], {"list", "inner", "dot", "conj", "mul"}, 2, True, group="x", canon=True),
     ]
     if not q:
         out += [
@@ -184,12 +185,12 @@ def slices(tier):
             S("alg3-c", ["v", "u", "f"], {"add", "mul", "conj"}, 3, True),
             # group "x", three constructor calls: full block bilinear forms dot(<v0, v1>, <u0, u1>), conditionals
             # between parts, trilinear forms in real mode, and deep random terms
-            S("rank3-r", ["v", "u", "w"], {"mul", "add"}, 3, False, group="x"),
-            S("parts3-r", ["v0", "v1", "u0", "u1", "c"], {"list", "dot", "mul"}, 3, False, group="x"),
-            S("parts3-c", ["v0", "v1", "u0", "u1"], {"list", "inner", "conj", "mul"}, 3, True, group="x"),
-            S("condparts-r", ["v0", "v1", "f", "z"], {"lt", "cond", "mul"}, 3, False, group="x"),
-            S("deep3-c", ["v", "u", "w", "gw", "ww", "f", "c", "two", "imag", "z"], (DEEP | {"conj", "real"}) - {"restrict", "pow"}, 6, True, idx=(10, 11), maxrank=2, simulate=150, group="x"),
-            S("deepparts-r", ["v0", "v1", "u0", "u1", "f", "c", "one", "two", "z", "zz"], DEEP, 6, False, idx=(10, 11), maxrank=2, simulate=200, group="x"),
+            S("rank3-r", ["v", "u", "w"], {"mul", "add"}, 3, False, group="x", canon=True),
+            S("parts3-r", ["v0", "v1", "u0", "u1", "c"], {"list", "dot", "mul"}, 3, False, group="x", canon=True),
+            S("parts3-c", ["v0", "v1", "u0", "u1"], {"list", "inner", "conj", "mul"}, 3, True, group="x", canon=True),
+            S("condparts-r", ["v0", "v1", "f", "z"], {"lt", "cond", "mul"}, 3, False, group="x", canon=True),
+            S("deep3-c", ["v", "u", "w", "gw", "ww", "f", "c", "two", "imag", "z"], (DEEP | {"conj", "real"}) - {"restrict", "pow"}, 6, True, idx=(10, 11), maxrank=2, simulate=150, group="x", canon=True),
+            S("deepparts-r", ["v0", "v1", "u0", "u1", "f", "c", "one", "two", "z", "zz"], DEEP, 6, False, idx=(10, 11), maxrank=2, simulate=200, group="x", canon=True),
         ]
     return out
 
@@ -377,7 +378,7 @@ def mc_module(name, run, pool):
     for s in run.subs:
         ids = [str(run.init_names.index(n) + 1) for n in s.use]
         fargs = _set(f"<<{ARG_NUM[a]}, {_int(ARG_PART.get(a, -1))}>>" for a in s.formargs)
-        subs.append(f"[ops |-> {_set(json.dumps(o) for o in s.ops)}, ids |-> {_set(ids)}, idx |-> {_set(map(str, s.idx))}, maxnodes |-> {s.maxnodes}, maxrank |-> {s.maxrank}, fargs |-> {fargs}]")
+        subs.append(f"[ops |-> {_set(json.dumps(o) for o in s.ops)}, ids |-> {_set(ids)}, idx |-> {_set(map(str, s.idx))}, maxnodes |-> {s.maxnodes}, maxrank |-> {s.maxrank}, fargs |-> {fargs}, canon |-> {'TRUE' if s.canon else 'FALSE'}]")
     return f"""---- MODULE {name} ----
 EXTENDS Arity
 MC_Terminals == {pool.tla_terminals()}
@@ -1067,6 +1068,7 @@ def run(ctx, args):
     ctx.rule = (
         "TLC enumerates (exhaustively per slice; random behaviours for the deep slices) every integrand buildable "
         "from the slice's pool {test function, trial function (scalar or vector, also under grad / reference value), "
+        "third argument of a trilinear form, parts 0 and 1 of the test / trial function of a block system, "
         "coefficients, geometry, literals 1 2 1.5 i, zero} with its operator alphabet up to the node bound, with "
         "the model checker's verdict (both list-tensor rules) and the semantic class per argument; every distinct "
         "program that is a scalar integrand is replayed through the public API + the real pipeline + "
@@ -1077,6 +1079,7 @@ def run(ctx, args):
     ctx.assume("the exact evaluator vf/sem.py reads the meaning of the real lowered expression; its classes are compared with the classes TLC derives from the specification's own value semantics on every term")
     ctx.assume("values undefined in a sample (division by zero, irrational roots, order comparison of complex numbers, numerators beyond CQ's range) make the class 'unknown'; such terms are counted, not judged")
     ctx.assume("arguments and coefficients live in continuous Lagrange spaces on an affine triangle mesh; restrictions do not change values")
+    ctx.assume("an argument number split into parts is ONE form argument (the tuple of its parts, varied together); all Arguments of one number carry a part or none does; integrands are also judged against their own arguments only (a form whose other integrals would supply the rest)")
     sls = slices(ctx.tier)
     only = os.environ.get("VERIF_SLICES")
     if only:
